@@ -15,6 +15,8 @@ import traceback
 import types
 from fractions import Fraction
 
+# optional benchmark packages that are binary-incompatible with the installed numpy must not be imported
+sys.modules.setdefault("yahpo_gym", None)
 VERIF = os.path.dirname(os.path.dirname(os.path.abspath(__file__)))
 sys.path.insert(0, VERIF)
 
